@@ -357,48 +357,58 @@ func (ge *genEnv) compileAll(cs []*genCase) error {
 	if len(good) == 0 {
 		return nil
 	}
-	var src strings.Builder
-	src.WriteString("package main\n\nimport (\n\t\"encoding/hex\"\n\t\"fmt\"\n")
-	for _, c := range good {
-		fmt.Fprintf(&src, "\tp%d \"scratch/g%d\"\n", c.idx, c.idx)
-	}
-	src.WriteString(")\n\nfunc main() {\n")
-	for _, c := range good {
-		fmt.Fprintf(&src, "\t{ v := &p%d.VarlinkInterface{}; fmt.Println(%d, \"x\"+hex.EncodeToString([]byte(v.VarlinkGetName())), \"x\"+hex.EncodeToString([]byte(v.VarlinkGetDescription()))) }\n", c.idx, c.idx)
-	}
-	src.WriteString("}\n")
-	os.MkdirAll(filepath.Join(mod, "probe"), 0o755)
-	if err := os.WriteFile(filepath.Join(mod, "probe", "main.go"), []byte(src.String()), 0o644); err != nil {
-		return err
-	}
-	bin := filepath.Join(mod, "probe.bin")
-	cmd := exec.Command("go", "build", "-o", bin, "./probe")
-	cmd.Dir = mod
-	cmd.Env = ge.goenv
-	if out, err := cmd.CombinedOutput(); err != nil {
-		return fmt.Errorf("probe build failed: %v\n%.2000s", err, out)
-	}
-	out, err := exec.Command(bin).Output()
-	if err != nil {
-		return fmt.Errorf("probe run failed: %v", err)
-	}
 	byIdx := map[int]*genCase{}
 	for _, c := range good {
 		byIdx[c.idx] = c
 	}
-	for _, line := range strings.Split(string(out), "\n") {
-		f := strings.Fields(line)
-		if len(f) != 3 {
-			continue
+	// one probe program per 1500 packages (a single link of tens of thousands of packages is too slow)
+	for start := 0; start < len(good); start += 1500 {
+		end := start + 1500
+		if end > len(good) {
+			end = len(good)
 		}
-		i, _ := strconv.Atoi(f[0])
-		c := byIdx[i]
-		if c == nil {
-			continue
+		chunk := good[start:end]
+		var src strings.Builder
+		src.WriteString("package main\n\nimport (\n\t\"encoding/hex\"\n\t\"fmt\"\n")
+		for _, c := range chunk {
+			fmt.Fprintf(&src, "\tp%d \"scratch/g%d\"\n", c.idx, c.idx)
 		}
-		c.probeName, _ = hex.DecodeString(f[1][1:])
-		c.probeDesc, _ = hex.DecodeString(f[2][1:])
-		c.probe = "ok"
+		src.WriteString(")\n\nfunc main() {\n")
+		for _, c := range chunk {
+			fmt.Fprintf(&src, "\t{ v := &p%d.VarlinkInterface{}; fmt.Println(%d, \"x\"+hex.EncodeToString([]byte(v.VarlinkGetName())), \"x\"+hex.EncodeToString([]byte(v.VarlinkGetDescription()))) }\n", c.idx, c.idx)
+		}
+		src.WriteString("}\n")
+		pdir := fmt.Sprintf("probe%d", start)
+		os.MkdirAll(filepath.Join(mod, pdir), 0o755)
+		if err := os.WriteFile(filepath.Join(mod, pdir, "main.go"), []byte(src.String()), 0o644); err != nil {
+			return err
+		}
+		bin := filepath.Join(mod, pdir+".bin")
+		cmd := exec.Command("go", "build", "-o", bin, "./"+pdir)
+		cmd.Dir = mod
+		cmd.Env = ge.goenv
+		if out, err := cmd.CombinedOutput(); err != nil {
+			return fmt.Errorf("probe build failed: %v\n%.2000s", err, out)
+		}
+		out, err := exec.Command(bin).Output()
+		if err != nil {
+			return fmt.Errorf("probe run failed: %v", err)
+		}
+		os.Remove(bin)
+		for _, line := range strings.Split(string(out), "\n") {
+			f := strings.Fields(line)
+			if len(f) != 3 {
+				continue
+			}
+			i, _ := strconv.Atoi(f[0])
+			c := byIdx[i]
+			if c == nil {
+				continue
+			}
+			c.probeName, _ = hex.DecodeString(f[1][1:])
+			c.probeDesc, _ = hex.DecodeString(f[2][1:])
+			c.probe = "ok"
+		}
 	}
 	return nil
 }
